@@ -133,6 +133,16 @@ def run_greedy_small(key):
                             f'{fld}', comp.tolist())
             if code == 0 and not np.array_equal(m, np.repeat(np.arange(K)[:, None], F, 1)):
                 return viol('consistent mask: greedy aligner does not return the identity mapping')
+            if code % 7 == 0:
+                # the mapping does not depend on a power-of-two scaling of the mask (levels around 1e18 and 1e-18)
+                for sc in (2.0 ** 60, 2.0 ** -60):
+                    try:
+                        ms_ = np.asarray(pa.GreedyPermutationAlignment(similarity_metric=metric)
+                                         .calculate_mapping(mask * sc))
+                    except Exception as e:  # noqa
+                        return viol(f'Greedy({metric}) raised {e!r} for the mask scaled by {sc:.1e}')
+                    if not np.array_equal(ms_, m):
+                        return viol(f'Greedy({metric}): mapping changes when the mask is scaled by {sc:.1e} (field {fld})')
             n += 1
     return ok(outcome=f'{K},{F},{chunk}', evals=n, states=n, transitions=n * (F - 1))
 
@@ -384,6 +394,21 @@ def run_net(key):
         out = np.asarray(al(mask))
     except Exception as e:  # noqa
         return viol(f'aligner raised {e!r}')
+    # a power-of-two scaling of the mask scales every score exactly: the mapping is the same permutation field,
+    # at mask levels around 1e18 (double) and 1e9 (single precision) as well
+    for dt, sc in ((np.float64, 2.0 ** 60), (np.float64, 2.0 ** -60), (np.float32, 2.0 ** 30)):
+        small = np.asarray(mask, dtype=dt)
+        try:
+            m1 = np.asarray(al.calculate_mapping(small))
+            m2 = np.asarray(al.calculate_mapping(small * dt(sc)))
+        except Exception as e:  # noqa
+            return viol(f'aligner raised {e!r} for the mask scaled by {sc:.1e} ({np.dtype(dt).name})')
+        if not all(sorted(c) == list(range(K)) for c in m2.T.tolist()):
+            return viol(f'{cfg}({metric},{alg}): mapping of the mask scaled by {sc:.1e} ({np.dtype(dt).name}) is not a '
+                        f'permutation in every bin', m2.tolist())
+        if not np.array_equal(m1, m2):
+            return viol(f'{cfg}({metric},{alg}): mapping changes when the {np.dtype(dt).name} mask is scaled by {sc:.1e}',
+                        m1.tolist(), m2.tolist())
     if amb:
         return trivial('tie or near tie in the reference procedure (mask not tie-free)')
     if not np.array_equal(m, ref):
